@@ -188,6 +188,30 @@ class FnTerms:
                                 if isinstance(st, ast.AugAssign):
                                     kind = "augitem"
                                 muts.setdefault(root_name, []).append((n.id, kind, (tt, st), subs))
+        # mutations performed by nested helper functions on variables of this function (closures): attribute them to
+        # the helper's call sites, with the helper's parameters replaced by the arguments passed there
+        for nname, nfi in getattr(self.fi, "nested", {}).items():
+            sites = []
+            for n in self.cfg.nodes:
+                if n.stmt is None or n.ast is None:
+                    continue
+                root = n.ast if n.kind == "test" else n.stmt
+                if isinstance(root, (ast.FunctionDef, ast.AsyncFunctionDef)):
+                    continue
+                from .cfg import header_exprs
+                for ex in ([root] if n.kind == "test" else [e for e in header_exprs(n.stmt) if e is not None]):
+                    for c in ast.walk(ex):
+                        if isinstance(c, ast.Call) and isinstance(c.func, ast.Name) and c.func.id == nname:
+                            sites.append((n.id, c))
+            if not sites:
+                continue
+            nft = fn_terms(self.repo, nfi)
+            for name, ms in nft.mutations().items():
+                for (mn, kind, payload, subs) in ms:
+                    if name in nfi.params or nft.reaching(name, mn):
+                        continue  # a local of the helper
+                    for (cs, call) in sites:
+                        muts.setdefault(name, []).append((cs, "nested:" + kind, (nft, nfi, mn, kind, payload, subs, call), []))
         self._muts = muts
         return muts
 
@@ -232,13 +256,13 @@ class FnTerms:
                     if r and r[0] == "global":
                         m, nm = r[1]
                         try:
-                            return ("const", self.repo.const_value(m, m.globals[nm]))
+                            return _const_or_global(self.repo.const_value(m, m.globals[nm]), m.rel, nm)
                         except Exception:
                             return ("global", m.rel, nm)
                     if r and r[0] == "classattr":
                         ci, nm = r[1]
                         try:
-                            return ("const", self.repo.const_value(ci.module, ci.attrs[nm]))
+                            return _const_or_global(self.repo.const_value(ci.module, ci.attrs[nm]), ci.module.rel, ci.name + "." + nm)
                         except Exception:
                             return ("global", ci.module.rel, ci.name + "." + nm)
                     if r and r[0] in ("func", "class", "module"):
@@ -333,6 +357,12 @@ class FnTerms:
                 if isinstance(tgt, tuple) and tgt[0] == "class":
                     return ("call", tgt[1].key, args, kwargs)
                 if head not in ("self", "cls"):
+                    if len(parts) >= 2 and self.fi.outer is not None and self.repo.resolve_dotted(self.fi.module, head) is None:
+                        # a free variable of a nested helper: method call on the enclosing function's object
+                        recv = ("free", head)
+                        for p in parts[1:-1]:
+                            recv = ("attr", recv, p)
+                        return ("mcall", recv, parts[-1], args, kwargs)
                     return ("call", d, args, kwargs)
         if isinstance(e.func, ast.Attribute):
             recv = self.term(e.func.value, nid, env, depth + 1)
@@ -357,7 +387,7 @@ class FnTerms:
             if r and r[0] == "global":
                 m, nm = r[1]
                 try:
-                    return ("const", self.repo.const_value(m, m.globals[nm]))
+                    return _const_or_global(self.repo.const_value(m, m.globals[nm]), m.rel, nm)
                 except Exception:
                     return ("global", m.rel, nm)
             if r and r[0] in ("func", "class", "module"):
@@ -387,7 +417,39 @@ class FnTerms:
                 return ("cont", name, base, frozenset(facts))
         return base
 
+    def _nested_fact(self, cs, payload, depth):
+        nft, nfi, mn, kind, inner, subs, call = payload
+        fact = nft._mutation_fact(mn, kind, inner, subs, depth + 1)
+        # bind the helper's parameters to the call's arguments, free variables to this function's values at the call
+        binding = {}
+        params = nfi.params
+        for i, a in enumerate(call.args):
+            if i < len(params):
+                binding[("param", params[i])] = self.term(a, cs, None, depth + 1)
+        for k in call.keywords:
+            if k.arg:
+                binding[("param", k.arg)] = self.term(k.value, cs, None, depth + 1)
+        cache = {}
+
+        def sub(t, d=0):
+            if isinstance(t, frozenset):
+                return frozenset(sub(x, d + 1) for x in t)
+            if not isinstance(t, tuple) or d > 80:
+                return t
+            if t in binding:
+                return binding[t]
+            if t and t[0] == "free" and len(t) == 2:
+                key = ("free", t[1])
+                if key not in cache:
+                    cache[key] = self.name_term(t[1], cs, depth + 1)
+                return cache[key]
+            return tuple(sub(x, d + 1) if isinstance(x, (tuple, frozenset)) else x for x in t)
+        k2, subs_t, a, b, _ = fact
+        return (k2, sub(subs_t), sub(a), sub(b) if b is not None else None, cs)
+
     def _mutation_fact(self, mn, kind, payload, subs, depth):
+        if kind.startswith("nested:"):
+            return self._nested_fact(mn, payload, depth)
         subs_t = tuple(self.term(s, mn, None, depth + 1) for s in subs)
         if kind in ("setitem", "delitem", "augitem", "setattr"):
             tt, st = payload
@@ -512,6 +574,17 @@ class FnTerms:
         for p in d.path:
             v = proj(v, p)
         return v
+
+
+def _const_or_global(v, rel, name):
+    """Module constants become ('const', v) only when hashable and immutable; shared mutable objects stay symbolic."""
+    if isinstance(v, (dict, list, set, bytearray)):
+        return ("global", rel, name)
+    try:
+        hash(v)
+    except TypeError:
+        return ("global", rel, name)
+    return ("const", v)
 
 
 # ----------------------------------------------------------------------------- helpers on terms
